@@ -22,6 +22,7 @@ import (
 	"errors"
 	"fmt"
 	"os"
+	"runtime"
 	"strconv"
 	"strings"
 	"sync"
@@ -71,6 +72,10 @@ type Case struct {
 	Enc     string `json:"enc,omitempty"`
 	EncName string `json:"enc_name,omitempty"`
 	Wire    string `json:"wire,omitempty"`
+	// the body handed to the real code is NOT the JSON text of the document but a corruption of it (a body that fails to
+	// parse): "form" (form-encoded), "truncated" (the text without its last character), "trailing" (text + "}"),
+	// "binary" (the gzip bytes of the text, undeclared).  The event then says wire = "garbage".
+	Garbage string `json:"garbage,omitempty"`
 }
 
 type Leaf struct {
@@ -252,6 +257,16 @@ type Tree struct {
 	F []any  `json:"f"`
 }
 
+func (d *Doc) depth() int {
+	m := 0
+	for _, k := range d.kids {
+		if n := k.depth(); n > m {
+			m = n
+		}
+	}
+	return m + 1
+}
+
 func (d *Doc) tree(classes *[]Leaf, next *int) Tree {
 	t := Tree{K: d.K, T: "", F: []any{}}
 	switch d.K {
@@ -377,6 +392,14 @@ type prepared struct {
 	excl []string
 }
 
+// direct is the body for the entry points that take the body text itself (no content decoding in front of them)
+func (p *prepared) direct() string {
+	if p.c.Garbage != "" {
+		return p.body
+	}
+	return p.text
+}
+
 func gz(s string) string {
 	var b bytes.Buffer
 	w := gzip.NewWriter(&b)
@@ -423,6 +446,22 @@ func prepare(c Case) *prepared {
 	if c.Wire == "gzip" {
 		p.body = gz(p.text)
 	}
+	switch c.Garbage {
+	case "":
+	case "form":
+		p.body = "user=alice&name=bob&id=7"
+	case "truncated":
+		p.body = p.text[:len(p.text)-1]
+	case "trailing":
+		p.body = p.text + "}"
+	case "binary":
+		p.body = gz(p.text)
+	default:
+		vh.Die("unknown garbage kind %q", c.Garbage)
+	}
+	if c.Garbage != "" {
+		p.c.Wire = "garbage"
+	}
 	return p
 }
 
@@ -438,9 +477,9 @@ var obf = obfuscation.Obfuscator{Hasher: hasher}
 func call(p *prepared) (string, error) {
 	switch p.c.Entry {
 	case "json":
-		return obf.ObfuscateJSON(p.text, p.excl)
+		return obf.ObfuscateJSON(p.direct(), p.excl)
 	case "har_request", "har_response":
-		return harcollector.VerifObfuscateBody(p.excl, mockStream(p, p), p.text, p.c.Entry == "har_response"), nil
+		return harcollector.VerifObfuscateBody(p.excl, mockStream(p, p), p.direct(), p.c.Entry == "har_response"), nil
 	case "legacy_request", "legacy_response":
 		return legacy(obf, p)
 	}
@@ -466,7 +505,9 @@ func project(p *prepared, outText string, err error) vh.Ev {
 	leaves := []Leaf{}
 	shape := "same"
 	if err != nil {
-		shape = "error: " + err.Error()
+		// the call failed and returned no output: nothing of the body is exported
+		shape = "opaque"
+		ev["error"] = err.Error()
 	} else if outText == "" || outText == hasher.HashBytes([]byte(p.body)) || outText == hasher.HashBytes([]byte(p.text)) {
 		// nothing of the body exported: empty, or the production hash of the whole body (as received / as text)
 		shape = "opaque"
@@ -483,8 +524,13 @@ func project(p *prepared, outText string, err error) vh.Ev {
 		}
 	}
 	// document and (when the structure is preserved) the output with the class at every leaf, for the comparison with ObfI
-	ev["doc"] = c.Doc.tree(nil, nil)
-	if shape == "same" {
+	// (documents nested deeper than the JSON reader of the trace validation can take are compared leaf by leaf only)
+	deep := c.Doc.depth() > 60
+	ev["deep"] = deep
+	if deep {
+		ev["doc"] = Tree{K: "none", T: "", F: []any{}}
+		ev["otree"] = Tree{K: "none", T: "", F: []any{}}
+	} else if ev["doc"] = c.Doc.tree(nil, nil); shape == "same" {
 		next := 0
 		ev["otree"] = c.Doc.tree(&leaves, &next)
 	} else {
@@ -524,9 +570,9 @@ func run(cases []Case, tr *vh.Trace) {
 			}
 			var out string
 			if c.Entry == "har_response" {
-				out = har.ResponseBody(p.text)
+				out = har.ResponseBody(p.direct())
 			} else {
-				out = har.RequestBody(p.text)
+				out = har.RequestBody(p.direct())
 			}
 			tr.Add(project(p, out, nil))
 		default:
@@ -602,6 +648,8 @@ func main() {
 	vh.ReadJSON(os.Args[2], &cases)
 	tr := vh.NewTrace()
 	if os.Args[1] == "run" {
+		// one call after the other on one P: what a call leaves behind in a pool is what the next call gets
+		runtime.GOMAXPROCS(1)
 		run(cases, tr)
 	} else {
 		workers, _ := strconv.Atoi(os.Args[4])
